@@ -465,3 +465,28 @@ fn f_c04_1_rendezvous_send_hangs() {
     }
     assert_eq!(hangs, 0, "a blocking send on sync_channel(0) never completed although the loop kept dispatching");
 }
+
+// ---------------------------------------------------------------- F-C07-1
+// update() on a disabled source re-armed it: LoopHandle::update() called the source's reregister() whether or not
+// the source was registered, and Timer::reregister (like every source written as `unregister; register`) arms.
+// Found while triaging seeding round 8 (two sub-agents built seeds on the sequence disable -> update); C07.4.
+#[test]
+fn f_c07_1_update_rearms_disabled_timer() {
+    use calloop::timer::{TimeoutAction, Timer};
+    let mut el: EventLoop<u32> = EventLoop::try_new().unwrap();
+    let h = el.handle();
+    let tok = h
+        .insert_source(Timer::from_duration(Duration::from_millis(30)), |_, _, n: &mut u32| {
+            *n += 1;
+            TimeoutAction::Drop
+        })
+        .unwrap();
+    h.disable(&tok).unwrap();
+    h.update(&tok).unwrap();
+    let mut n = 0u32;
+    el.dispatch(Duration::from_millis(100), &mut n).unwrap();
+    assert_eq!(n, 0, "a disabled timer fired after update()");
+    h.enable(&tok).unwrap();
+    el.dispatch(Duration::from_millis(100), &mut n).unwrap();
+    assert_eq!(n, 1, "the timer fires after enable()");
+}
